@@ -144,7 +144,7 @@ def run_property(prop, tier='quick', replay=None):
     undecided = []
     known_hits = []
     known = [k for k in load_known() if k.get('property') == pid and k.get('status') == 'known']
-    replay_dir = os.path.join(env.VERIF, 'replays')
+    replay_dir = os.path.join(env.OUT, 'replays')
     os.makedirs(replay_dir, exist_ok=True)
     for old_f in os.listdir(replay_dir):           # replay files of earlier runs of this property are stale
         if old_f.startswith(pid + '-'):
@@ -152,7 +152,7 @@ def run_property(prop, tier='quick', replay=None):
                 os.unlink(os.path.join(replay_dir, old_f))
             except OSError:
                 pass
-    os.makedirs(os.path.join(env.VERIF, 'evidence'), exist_ok=True)
+    os.makedirs(os.path.join(env.OUT, 'evidence'), exist_ok=True)
 
     def write_replay(tag, payload):
         path = os.path.join(replay_dir, '%s-%s.json' % (pid, tag))
@@ -331,7 +331,7 @@ def run_property(prop, tier='quick', replay=None):
     )
     ev = dict(property_id=pid, tier=tier, seed=seed, level=prop.level, coverage=coverage,
               assumptions=list(prop.assumptions), wall_s=round(wall, 2), violations=len(violations))
-    with open(os.path.join(env.VERIF, 'evidence', pid + '.json'), 'w') as f:
+    with open(os.path.join(env.OUT, 'evidence', pid + '.json'), 'w') as f:
         json.dump(jsonable(ev), f, indent=1, default=str)
     for l in out_lines:
         print(l)
